@@ -25,6 +25,10 @@ def cases(pid, obs):
         # kind 6: per valid DISCOVER sent after a hostile datagram: answered?; then panics seen, alive
         for o in obs["dhcp"].get("offers", []):
             out.append("6 %d" % (0 if o["reply"] is None else 1))
+    if pid == "C05" and "dns" in obs:
+        for h in obs["dns"].get("hostile", []):
+            out.append("8 %d" % (1 if h["answered"] else 0))
+    if pid == "C05":
         out.append("7 %d %d" % (obs.get("panics_in_log", 0), 1 if obs.get("alive_at_end") else 0))
     if pid == "C08" and "http" in obs:
         # kind 20: client class (1 = first matching rule grants http-ro, 0 = it does not), path code, status
